@@ -77,6 +77,7 @@ def worldOf (j : Json) : Except String World := do
 
 def errStr : Err → String
   | .xmlContext => "XmlContextError" | .value => "ValueError" | .parser => "ParserError" | .index => "KeyError"
+  | .runtime => "LEAK:RuntimeError"
 
 def jVar (v : Var) : Json :=
   Json.arr #[jNat v.index, jStr v.name, jStr v.localName, jStr v.qname, jList jStr v.namespaces,
@@ -183,7 +184,10 @@ def run (op : String) (a : Json) : Option (Except String Json) :=
         let k ← getStr j "k"
         match String.ofList k with
         | "build" => pure (Prog.build (← getNat j "c") (← optStr j "pns"))
-        | "find_types" => pure (Prog.findTypes (← getStr j "q"))
+        | "find_types" => pure (Prog.lookup .types (← getStr j "q"))
+        | "find_type" => pure (Prog.lookup .last (← getStr j "q"))
+        | "find_subclass" => pure (Prog.lookup (.sub (← getNat j "c")) (← getStr j "q"))
+        | "find_type_by_fields" => pure (Prog.scan (← strList j "names"))
         | "reset" => pure Prog.reset
         | k => .error s!"bad prog {k}"
       let sch ← getArr a "schedule"
